@@ -1,5 +1,5 @@
 From Coq Require Extraction ExtrOcamlBasic.
-From GV Require Import Common.Outcome Base.Grammar LR.Automaton LR.Validator C08.Model.
+From GV Require Import Common.Outcome Base.Grammar LR.Automaton LR.Validator C08.Model C08.DetModel.
 Extraction Language OCaml.
 Extraction "model.ml" mkGrammar mkDump of_dump wf_grammar validS lhs
-  run_actions_rec run_actions_fixed_rec.
+  run_actions_rec run_actions_fixed_rec run_actions_fixed_f run_generic_fixed_f.
